@@ -181,6 +181,13 @@ def h_order(ctx: Any, code: str, n: int, script: str, stacks: Any, deck: str = '
                 k += 1
                 decide(st, ch)
             elif st.showdown_index is not None:
+                if mode == 'T' and (st.all_in_status or st.street is st.streets[-1]):
+                    # tournament: an all-in or final showdown requires ALL hole cards to be shown
+                    i = st.showdown_index
+                    for part in (tuple(st.hole_cards[i][:1]), ()):
+                        ctx.check(not st.can_show_or_muck_hole_cards(part, i), 'partial-show-accepted-in-tournament',
+                                  lambda: f'player {i} {part}')
+                    ctx.cover('tournament-show')
                 if all_show:
                     st.show_or_muck_hole_cards(True)
                 else:
@@ -229,6 +236,9 @@ def jobs(tier: str, seed: int) -> list[dict]:
             out.append(dict(name=f'order/{code}/n{n}/{script}/{dk}', fn='h_order', traced=False,
                             params=dict(code=code, n=n, script=script, stacks=stacks, deck=dk), budget_s=B,
                             must_cover=['done']))
+        out.append(dict(name=f'order/{code}/n{n}/{script}/tournament', fn='h_order', traced=False,
+                        params=dict(code=code, n=n, script=script, stacks=stacks, mode='T'), budget_s=B,
+                        must_cover=['done', 'tournament-show']))
     if tier == 'thorough':
         for k, part in enumerate(w3):
             out.append(dict(name=f'checkdown/n3/hilo/T/w{k}', fn='h_muck',
